@@ -261,7 +261,11 @@ theorem inv1_step (o : Obj S N) {sh sh' : Sh S N} {pre post : List (Th o.WOp N)}
   have hoth : ∀ sh2 : Sh S N, sh.ncb ≤ sh2.ncb → ∀ u ∈ pre ++ post, Th1 sh2 u :=
     fun sh2 hle u hu => th1_mono (ho u hu) hle
   cases htr with
-  | startWrite w rest hu =>
+  | earlyReturn w rest hearly =>
+    refine ⟨by count_u, by count_e, hLt, hNd, ?_⟩
+    simp only; rw [forall_mid]
+    exact ⟨th1_idle _ rest, hoth _ (Nat.le_refl _)⟩
+  | startWrite w rest hearly hu =>
     refine ⟨by count_u, by count_e, hLt, hNd, ?_⟩
     simp only; rw [forall_mid]
     exact ⟨by constructor <;> simp [work, holdsE, marking, todo, tnote], hoth _ (Nat.le_refl _)⟩
